@@ -34,6 +34,7 @@ func genOverlapCfg(r *gen.Rand) tcfg {
 	case 2:
 		cfg.SkipFailed, cfg.SkipOK = true, true
 	}
+	cfg.RefStore = cfg.VStore && r.Bool()
 	return cfg
 }
 
